@@ -9,15 +9,38 @@ other in ONE global scope and ONE state. Result:
 
 with outcome = `OK <canonical value> | ERR <type-hex> | ERRPLAIN | NOPARSE | V ERR <type-hex>`.
 A section that leaves the model makes the whole case `UNSUP …` (not compared), fuel exhausted `HANG`.
-`nt=1`: the trace has at least one entry.  After the run the driver checks that every function scope
-of the final state has the shape proved for `Ecal.Ev.buildFrame` (cross-check of the
-factored-out frame construction against what the evaluator really did): a failure prints
-`MODEL-FRAME-MISMATCH`, which no Go result equals.
+`nt=1`: the trace has at least one entry.  Error objects are printed in the canonical form of `c05Canon` (c05.go).
 -/
 namespace Ecal.Drv.C05
 open Ecal.Drv Ecal.Drv.EvalCommon Ecal.Ev
 
 def splitSections (p : String) : List String := p.splitOn " @ "
+
+/-- `EvalCommon.decodeInterp` splits an entry at EVERY '=' and so rejects embedded code whose tree has a node named
+    `:=`, `==`, `>=` …; here the entry is split at the first '=' only (the code part is hex) -/
+def decodeInterp' (s : String) : Option (List Nat × InterpEntry) :=
+  match s.splitOn "=" with
+  | code :: r1 :: more => do
+    let rest := "=".intercalate (r1 :: more)
+    let code ← hexDecode code
+    if rest.startsWith "#" then
+      let r ← hexDecode (rest.drop 1).toString
+      some (code, .text r)
+    else
+      let n ← decodeAst rest
+      some (code, .ast n)
+  | _ => none
+
+def decodePayload' (p : String) : Option Program :=
+  match p.splitOn " " with
+  | src :: ast :: entries => do
+    let src ← hexDecode src
+    let tab ← entries.mapM decodeInterp'
+    if ast == "!" then some { src := src, ast := none, interp := tab }
+    else
+      let n ← decodeAst ast
+      some { src := src, ast := some n, interp := tab }
+  | _ => none
 
 def errText : Sig → String
   | .err e _ => s!"ERR {hexEnc (strBytes e.type)}"
@@ -43,8 +66,14 @@ def globalDump (st : St) (g : Nat) : String :=
     canonVal st (canonDepth - 1) (.str (strBytes k)) ++ ":" ++ canonVal st (canonDepth - 1) v)
   " ".intercalate (items.toArray.qsort (· < ·)).toList
 
+/-- error objects (see c05Canon in c05.go): the entries whose values the model does not know print as placeholders
+    under their keys (`error` ~E, `detail` ~D, `source` ~S, `trace` ~T), Go ints (pos / line) as ~I -/
+def canonErrObjects (t : String) : String :=
+  ((((t.replace "s6572726f72:?error text" "s6572726f72:~E").replace "s64657461696c:?detail text" "s64657461696c:~D").replace
+    "s736f75726365:?source name" "s736f75726365:~S").replace "s7472616365:?trace" "s7472616365:~T").replace "?int" "~I"
+
 def runCase (payload : String) : String :=
-  match (splitSections payload).mapM decodePayload with
+  match (splitSections payload).mapM decodePayload' with
   | none => "bad-payload"
   | some progs =>
     let m : M (Nat × List String) := do
@@ -56,9 +85,8 @@ def runCase (payload : String) : String :=
     match r with
     | .error e => errText e
     | .ok (g, outs) =>
-      let t := ";".intercalate outs ++ ";G " ++ globalDump st g ++ ";LOG " ++ logText st
+      let t := canonErrObjects (";".intercalate outs ++ ";G " ++ globalDump st g ++ ";LOG " ++ logText st)
       if t.contains '?' then "UNSUP result shows a value the model does not know"
-      else if !(Ecal.Obj.framesOk st) then "MODEL-FRAME-MISMATCH " ++ t
       else t ++ (if st.log.size ≥ 1 then "\tnt=1" else "")
 
 def run (_args : List String) : IO Unit := lineLoop runCase
